@@ -44,6 +44,12 @@ def run(prog, rep, tier):
         v = chain.get(opt)
         if v is None or v[0] != "k" or v[2] is not True:
             rep.violation(R151, PP + "|walker|" + opt, "process_path: the iterated directory walker is not configured with %s(true) (builder chain: %s)" % (opt, sample))
+    # jwalk skips entries whose name begins with '.' unless told otherwise; "every regular file beneath it"
+    # includes them (an explicitly named `.hidden.log` is read)
+    v = chain.get("skip_hidden")
+    if v is None or v[0] != "k" or v[2] is not False:
+        rep.violation(R151, PP + "|walker|skip_hidden", "process_path: the directory walker keeps jwalk's default skip_hidden(true); `s4 dir` silently omits `dir/.hidden.log` and everything under `dir/.cache/` "
+                      "although the same files are read when named explicitly (builder chain: %s)" % sample)
     # walk loop: FileValid pushes must be dominated by file_type().is_file() == true
     hdrs = [h for (t, h) in b.back_edges()]
     nx = [c for c in b.live_calls() if c.o.endswith("Iterator::next") and "jwalk" in (c.callee.get("self") or "")]
